@@ -41,6 +41,26 @@ INVARIANT AutoPaddingMakesBlurringFit
 INVARIANT ZoomWindowContainsEveryUnmaskedPixelWithItsValue
 """
 
+# the history machine (ZoomHistory.tla EXTENDS Resize: the constants of the single-call machine are left empty)
+HIST_CFG = """CONSTANTS
+  InShapes = {}
+  OutShapes = {}
+  KernelShapes = {}
+  MaskShapes = {}
+  MaskKernels = {}
+  Buffers = {}
+  HalfScales = {}
+  Origins = {}
+  HistFrames <- MCHistFrames
+  HistBuffers <- MCHistBuffers
+  HistReads <- MCHistReads
+SPECIFICATION HSpec
+INVARIANT HistoryMaskIsTheFoldOfItsEdits
+INVARIANT HistoryCacheIsCoherent
+INVARIANT EveryZoomOfAHistoryShowsTheCurrentMask
+INVARIANT HistoryMaskNeverEmpty
+"""
+
 TRACE_CFG = """CONSTANTS
   InShapes = {}
   OutShapes = {}
@@ -50,6 +70,9 @@ TRACE_CFG = """CONSTANTS
   Buffers = {}
   HalfScales = {}
   Origins = {}
+  HistFrames = {}
+  HistBuffers = {}
+  HistReads = FALSE
 SPECIFICATION TraceSpec
 POSTCONDITION TraceAccepted
 """
@@ -390,12 +413,52 @@ def rec_zoom(h, w, u, b, g, rng):
     return _guard(rec, ok, body)
 
 
+def rec_zoom_history(h, w, u, steps, g, rng):
+    """A history on ONE Mask2D object: zoom (through a new Array2D built on the object), edit in place
+    (mask[y, x] = False / True), read (mask.zoom_shape_native), zoom again ...  Every zoom is recorded."""
+    import autoarray as aa
+
+    ok = [True]
+    rec = _base("zoom_history", h, w, u, g)
+    plan = [{"op": st["op"], "cell": int(st["cell"]), "val": int(st["val"]), "b": int(st["b"])} for st in steps]
+    rec["steps"] = plan
+
+    def body():
+        mask = _mask(h, w, u, g)  # the one object of the history (tagged payload)
+        mask_r = _mask(h, w, u, g)  # its twin with the same history, for the random-real payload
+        tags, real = _tags(h, w), _reals(rng, h, w)
+        done = []
+        for st in plan:
+            if st["op"] == "edit":
+                y, x = divmod(st["cell"], w)
+                mask[y, x] = bool(st["val"])
+                mask_r[y, x] = bool(st["val"])
+                done.append(dict(st))
+            elif st["op"] == "read":
+                _ = mask.zoom_shape_native
+                _ = mask_r.zoom_shape_native
+                done.append(dict(st))
+            elif st["op"] == "zoom":
+                z = aa.Array2D(values=tags, mask=mask).zoomed_around_mask(buffer=st["b"])
+                zr = aa.Array2D(values=real, mask=mask_r).zoomed_around_mask(buffer=st["b"])
+                nat = np.asarray(z.native.array, dtype=float)
+                src = _src(nat, h * w)
+                done.append({**st, "oh": int(nat.shape[0]), "ow": int(nat.shape[1]), "src": src,
+                             "payload_ok": _payload_ok(src, real.ravel(), zr.native.array)})
+            else:
+                raise core.MachineryError(f"unknown history step {st}")
+        rec["steps"] = done
+
+    return _guard(rec, ok, body)
+
+
 # ------------------------------------------------------------------------------------------------------------
 # instance -> records
 # ------------------------------------------------------------------------------------------------------------
 def _rng_for(inst, seed):
     key = [seed, inst["h"], inst["w"], inst["h2"], inst["w2"], inst["kh"], inst["kw"], inst["b"], len(inst["u"]),
-           sum(inst["u"]) % 9973, {"resize": 1, "kernel": 2, "autopad": 3, "zoom": 4}[inst["kind"]]]
+           sum(inst["u"]) % 9973, {"resize": 1, "kernel": 2, "autopad": 3, "zoom": 4, "history": 5}[inst["kind"]],
+           sum((k + 1) * (st["cell"] + 7 * st["val"] + 13 * st["b"] + len(st["op"])) for k, st in enumerate(inst.get("steps", []))) % 99991]
     return np.random.default_rng(key)
 
 
@@ -436,10 +499,12 @@ def records_for(inst, seed=0, full_variants=True):
         out.append(rec_autopad(h, w, inst["u"], inst["kh"], inst["kw"], _geom(rng), rng))
     elif kind == "zoom":
         out.append(rec_zoom(h, w, inst["u"], inst["b"], _geom(rng), rng))
+    elif kind == "history":
+        out.append(rec_zoom_history(h, w, inst["u"], inst["steps"], _geom(rng), rng))
     else:
         raise core.MachineryError(f"unknown instance kind {kind}")
     for r in out:
-        r["inst"] = {k: inst[k] for k in ("kind", "h", "w", "u", "h2", "w2", "kh", "kw", "b")}
+        r["inst"] = {k: inst[k] for k in ("kind", "h", "w", "u", "h2", "w2", "kh", "kw", "b", "steps") if k in inst}
         r["inst"].update({"seed": seed, "full_variants": bool(full_variants)})
     return out
 
@@ -457,6 +522,10 @@ def _many(args):
 # ------------------------------------------------------------------------------------------------------------
 def _mask_shapes(max_cells, max_side):
     return [(h, w) for h in range(1, max_side + 1) for w in range(1, max_side + 1) if h * w <= max_cells]
+
+
+def _triples(ts):
+    return "{" + ", ".join(f"<<{a},{b},{c}>>" for a, b, c in ts) + "}"
 
 
 def enumerate_instances(ctx, in_shapes, out_shapes, kernels, mask_shapes, mask_kernels, buffers, tag, timeout=2400):
@@ -479,6 +548,32 @@ def enumerate_instances(ctx, in_shapes, out_shapes, kernels, mask_shapes, mask_k
     if len(insts) != expect or res.init_states != expect:
         raise core.MachineryError(f"Resize.tla enumerated {len(insts)} instances / {res.init_states} initial states, expected {expect}")
     return insts
+
+
+def enumerate_histories(ctx, hist_frames, hist_buffers, hist_reads, tag, timeout=2400):
+    """Exhaustive exploration of the history machine (ZoomHistory.tla): every mask of every frame, every history of the
+    given number of steps on one mask object.  TLC checks the cache-coherence rule and the validity of every zoom; the
+    complete histories (every shorter one is a prefix of one of them) are returned for replay."""
+    defs = "\n".join([f"MCHistFrames == {_triples(hist_frames)}", f"MCHistBuffers == {_ints(hist_buffers)}",
+                      f"MCHistReads == {'TRUE' if hist_reads else 'FALSE'}"])
+    res = ctx.tlc("ZoomHistory", HIST_CFG, defs=defs, tag=tag, timeout=timeout)
+    n_hist_masks = sum(2 ** (h * w) - 1 for h, w, _ in hist_frames)
+    if res.init_states != n_hist_masks:
+        raise core.MachineryError(f"ZoomHistory.tla: {res.init_states} initial states, expected {n_hist_masks} masks")
+    hseen = set()
+    hists = []
+    for r in res.by_kind("hist"):
+        steps = [{"op": st["op"], "cell": st["cell"], "val": st["val"], "b": st["b"]} for st in r["steps"]]
+        key = (r["h"], r["w"], tuple(r["u"]), tuple((st["op"], st["cell"], st["val"], st["b"]) for st in steps))
+        if key in hseen:
+            continue
+        hseen.add(key)
+        hists.append({"kind": "history", "h": r["h"], "w": r["w"], "u": list(r["u"]), "h2": 1, "w2": 1, "kh": 1, "kw": 1,
+                      "b": len(steps), "steps": steps})
+    if (not hists or {(x["h"], x["w"]) for x in hists} != {(h, w) for h, w, _ in hist_frames}
+            or any(x["steps"][-1]["op"] != "zoom" for x in hists)):
+        raise core.MachineryError(f"ZoomHistory.tla dumped {len(hists)} histories, not covering the frames {hist_frames}")
+    return hists
 
 
 def random_instances(rng, n_resize, n_kernel, n_mask, max_in=12, max_out=15, max_mask_side=9):
@@ -511,6 +606,48 @@ def random_instances(rng, n_resize, n_kernel, n_mask, max_in=12, max_out=15, max
                         "kw": int(rng.choice([1, 3, 5, 7]))})
         else:
             out.append({**blank, "kind": "zoom", "h": h, "w": w, "u": u, "b": int(rng.integers(0, 4))})
+    return out
+
+
+def random_histories(rng, n, max_h=12, max_w=15):
+    """seeded histories on one mask object, larger than the exhaustive frames: a blob, edits that reach outside its
+    bounding square (and inside it, and re-masking), reads, zooms with buffers 0..3; the last step is a zoom."""
+    out = []
+    for _ in range(n):
+        h, w = int(rng.integers(3, max_h + 1)), int(rng.integers(3, max_w + 1))
+        m = np.zeros((h, w), dtype=bool)  # True = unmasked here
+        y0, x0 = int(rng.integers(0, h)), int(rng.integers(0, w))
+        m[y0: y0 + int(rng.integers(1, 4)), x0: x0 + int(rng.integers(1, 4))] = True
+        m &= rng.random((h, w)) < 0.85
+        if not m.any():
+            m[y0, x0] = True
+        u = [int(x) for x in np.flatnonzero(m.ravel())]
+        cur = m.copy()
+        steps = []
+        n_steps = int(rng.integers(3, 7))
+        for k in range(n_steps):
+            r = rng.random()
+            if k == n_steps - 1 or r < 0.35:
+                steps.append({"op": "zoom", "cell": 0, "val": 0, "b": int(rng.integers(0, 4))})
+            elif r < 0.5:
+                steps.append({"op": "read", "cell": 0, "val": 0, "b": 0})
+            else:
+                ys, xs = np.where(cur)
+                outside = [(y, x) for y in range(h) for x in range(w)
+                           if not (ys.min() <= y <= ys.max() and xs.min() <= x <= xs.max())]
+                if outside and rng.random() < 0.6:
+                    y, x = outside[int(rng.integers(0, len(outside)))]
+                else:
+                    y, x = int(rng.integers(0, h)), int(rng.integers(0, w))
+                val = 1 if cur[y, x] else 0  # toggle
+                if val == 1 and cur.sum() == 1:
+                    continue  # the mask must stay non-empty
+                cur[y, x] = (val == 0)
+                steps.append({"op": "edit", "cell": y * w + x, "val": val, "b": 0})
+        if steps[-1]["op"] != "zoom":
+            steps.append({"op": "zoom", "cell": 0, "val": 0, "b": int(rng.integers(0, 4))})
+        out.append({"kind": "history", "h": h, "w": w, "u": u, "h2": 1, "w2": 1, "kh": 1, "kw": 1, "b": len(steps),
+                    "steps": steps})
     return out
 
 
@@ -568,6 +705,9 @@ def validate(ctx, records, tag, chunk=1500):
     for rj in rejects:
         rec = records[rj["id"]]
         extra = {k: rec[k] for k in ("h2", "w2", "kh", "kw", "b", "mpad", "pad") if k in rec}
+        if rec["api"] == "zoom_history":
+            extra["steps"] = [(st["op"], st["cell"], st["val"]) if st["op"] == "edit" else
+                              ((st["op"], st["b"]) if st["op"] == "zoom" else (st["op"],)) for st in rec["steps"]]
         ctx.violation(
             rj["sig"],
             f"{rec['api']} on {rec['h']}x{rec['w']} {extra} unmasked={rec['u'] if len(rec['u']) < rec['h'] * rec['w'] else 'all'} "
@@ -587,21 +727,32 @@ def run(ctx):
         mask_shapes = _mask_shapes(8, 4)
         mask_kernels = [(3, 3), (1, 3), (5, 3)]
         n_rand = (250, 120, 300)
+        hist_frames, hist_buffers, hist_reads, n_rand_hist = [(2, 2, 4), (2, 3, 3)], [0], False, 250
     else:
         mask_shapes = _mask_shapes(12, 6)
         mask_kernels = [(3, 3), (1, 3), (5, 3), (3, 5)]
         n_rand = (3000, 1500, 4000)
+        hist_frames, hist_buffers, hist_reads, n_rand_hist = [(2, 2, 4), (2, 3, 3), (3, 2, 3), (1, 4, 3), (4, 1, 3)], [0, 1], True, 4000
     buffers = [0, 1, 2]
     ctx.bounds = {"resize_input_shapes": "1..6 x 1..6", "resize_target_shapes": "1..8 x 1..8 (every parity combination)",
                   "pad_trim_kernels": kernels, "mask_frames_all_nonempty_masks": mask_shapes,
                   "autopad_kernels": mask_kernels, "zoom_buffers": buffers,
                   "coordinate_theorems_over": {"half_scales": HALF_SCALES, "origins": [-2, 0, 4]},
+                  "histories_on_one_mask_object(frame_h,frame_w,steps)": hist_frames,
+                  "history_zoom_buffers": hist_buffers, "history_reads": hist_reads,
+                  "random_histories": n_rand_hist, "random_history_bounds": "frames <= 12x15, 2..7 steps, buffers 0..3",
                   "random_instances(resize,kernel,mask)": n_rand,
                   "random_bounds": "inputs <= 12x12, targets <= 15x15, kernels <= 11x11, masks <= 9x9, buffers <= 3",
                   "tick_lengths": TICKS}
-    insts = enumerate_instances(ctx, in_shapes, out_shapes, kernels, mask_shapes, mask_kernels, buffers, "MC_Resize")
+    import concurrent.futures as cf
+
+    with cf.ThreadPoolExecutor(max_workers=2) as ex:  # the two bounded machines are explored side by side
+        f1 = ex.submit(enumerate_instances, ctx, in_shapes, out_shapes, kernels, mask_shapes, mask_kernels, buffers, "MC_Resize")
+        f2 = ex.submit(enumerate_histories, ctx, hist_frames, hist_buffers, hist_reads, "MC_ZoomHistory")
+        insts = f1.result() + f2.result()
     ctx.exhaustive = True
     rnd = random_instances(np.random.default_rng(ctx.seed), *n_rand)
+    rnd += random_histories(np.random.default_rng([ctx.seed, 14]), n_rand_hist)
     allinst = insts + rnd
     groups = [(allinst[k: k + 40], ctx.seed, not quick) for k in range(0, len(allinst), 40)]
     recs = []
@@ -609,7 +760,7 @@ def run(ctx):
         recs.extend(part)
     ctx.replayed = len(insts)
     pick = lambda api: next((r for r in recs if r["api"] == api and r["h"] * r["w"] <= 12), None)
-    for api in ("resize_array", "autopad", "zoom"):
+    for api in ("resize_array", "autopad", "zoom", "zoom_history"):
         r = pick(api)
         if r:
             ctx.sample({k: v for k, v in r.items() if k != "inst"})
@@ -627,6 +778,8 @@ def run(ctx):
         "abstracted to a tick lattice; off-lattice values are rejected, not rounded",
         "a parity-changing resize may take either of the two centred offsets; coordinates are judged only when parity is preserved",
         "zoom is judged on window content only (its coordinate origin belongs to C12)",
+        "histories: one Mask2D object is zoomed (through a new Array2D per zoom), edited in place with mask[y,x]=bool, read "
+        "(zoom_shape_native) and zoomed again; every zoom is judged against the mask current at that time",
         "Mask2D.trimmed_array_from is judged for parity-preserving pads (its only use: odd kernels)",
         "Imaging.trimmed_after_convolution_from is observed on a fresh dataset (the cached-grid path belongs to C11)",
     ]
